@@ -464,7 +464,7 @@ Definition check_call (cs : list N) (p : provider) (off : nat) (other : N) (pre 
   let c := mk_ctx cs in
   res_eqb node_list_eqb (provide p c off other (map (dict_node off) pre)) out
   && match p, out with
-     | PMecab m, ROk ns => same_node_set ns (prescribed m cs off other)
+     | PMecab m, ROk ns => node_list_eqb ns (prescribed m cs off other)   (* the prescribed list itself: nothing twice *)
      | PSimple o, ROk ns =>
          if other =? 0 then
            match ns with
